@@ -30,6 +30,24 @@ CSE_MODELS = [
 ]
 
 
+EXTRA_MODELS = [
+    # an integer-valued quantity (sum of comparisons) referred to by name as the base of a negative integer power
+    "parameters(a=0.5)\nstates(x=1.0, m=2.0)\nk = 1 + Gt(m, 1.0)\nn2 = Conditional(Gt(x, a), 2, 4)\ndx_dt = k**-1 - x\ndm_dt = a*n2**-2 - m*k**(-3)\n",
+]
+
+# genuine defects that are recorded, not repaired (DESIGN section 8): deterministic witnesses, matched by exact key
+KNOWN_MODELS = {
+    # sympy rewrites Abs(exp(u)) to exp(re(u)) when u is not provably real; `re` cannot be printed (nor saved)
+    "abs-exp-sqrt": "parameters(g=6.0)\nstates(z=0.5)\nalpha_m = Abs(exp(g**0.5))\ndz_dt = alpha_m - z\n",
+    # a constant intermediate that is zero is a Python number: dividing by it in a branch that is never taken raises
+    # ZeroDivisionError (numpy.where evaluates both branches; numpy scalars would give inf and be discarded)
+    # sympy.simplify (called when a Conditional is printed) solves `x**-2 >= 0.25` for x when the Conditional sits inside a
+    # trigonometric function and returns open intervals: the printed condition is strict, wrong exactly on x = +-2
+    "trig-of-conditional-boundary": "states(x=1.0, y=2.0)\nw = sin(Conditional(Ge(x**-2, 0.25), abs(y), 0*x))\ndx_dt = w - x\ndy_dt = -y\n",
+    "const-zero-divisor": "parameters(g=2.0)\nstates(u=0.01)\nq_ = 0\ntmp = Conditional(Gt(q_, 0.1), 0.25/q_, g)\ndu_dt = -tmp*u\n",
+}
+
+
 def tasks(tier, seed):
     P = families.value_programs(tier, seed)
     names = ["lorentz.ode", "fitzhughnagumo.ode", "beeler_reuter_1977.ode"] if tier == "quick" else None
@@ -38,6 +56,10 @@ def tasks(tier, seed):
     # options of CodeGenerator.rhs / monitor_values that get_code does not expose: use_cse (documented flag)
     for t in CSE_MODELS:
         out.append({"family": "CSE", "id": text_id(t), "text": t, "opts": {"use_cse": True}})
+    for t in EXTRA_MODELS:
+        out.append({"family": "EXTRA", "id": text_id(t), "text": t, "opts": {}, "meta": {"keep": True}})
+    for k, t in KNOWN_MODELS.items():
+        out.append({"family": "KNOWN", "id": k, "text": t, "opts": {}})
     return out + witness_tasks(PROP)
 
 
